@@ -159,3 +159,22 @@ def run(ctx):
     rt = sm.func("_subrun_root_task")
     ok = any(call_name(c) == "Config" and kwarg(c, "config_dict") is not None and src(kwarg(c, "config_dict")) == "config" for c in calls_in(rt))
     r4.check(ok, f"{sm.rel}:_subrun_root_task:Config(config_dict)", "the sub-scheduler is not built from Config(config_dict=config)", sm.rel, rt.lineno)
+
+    # ---- C35.5 the reader un-escapes every value the writer escaped ----------------------------
+    # get_config_dict() writes every `$` of an effective value as `$$` (C35.1).  The only place that turns `$$` back into `$` is
+    # ExtendedInterpolation.before_get; the redun subclass must therefore delegate to it for every value, also for those without a `${...}` reference.
+    r5 = ctx.rule("C35.5", "RedunExtendedInterpolation.before_get delegates to the parent's before_get on every path", floor=1)
+    bg = m.func("RedunExtendedInterpolation.before_get")
+    rets = [r for r in ast.walk(bg) if isinstance(r, ast.Return)]
+    if not rets:
+        raise AnalysisError("RedunExtendedInterpolation.before_get has no return", "RedunExtendedInterpolation.before_get")
+    for r in rets:
+        ok = isinstance(r.value, ast.Call) and src(r.value.func) == "super().before_get"
+        r5.check(
+            ok,
+            f"{m.rel}:RedunExtendedInterpolation.before_get:return@{'super' if ok else src(r.value)[:30] if r.value is not None else 'None'}",
+            f"before_get returns `{src(r.value)[:50] if r.value is not None else None}` (line {r.lineno}) without going through ExtendedInterpolation.before_get: for such values the escape `$$` is not turned back into `$`, "
+            "while get_config_dict() doubles every `$` it exports -- a value with a literal dollar grows a `$` on every Config -> dict -> Config round trip",
+            m.rel,
+            r.lineno,
+        )
